@@ -869,7 +869,13 @@ class Tr:
         if m:
             name = self.ctx.call_name(m.group(1), None, m.group(2))
             targs = split_top(m.group(3)) if m.group(3) else []
+            if name not in self.ctx.fns and m.group(2) in self.ctx.fns:
+                name = m.group(2)          # a free function printed with its module path
             return self.crate_call(name, av(), args, env, targs)
+        m = re.match(r'^(\w+)(?:::<(.*)>)?$', callee)
+        if m and m.group(1) in self.ctx.fns:      # a free function of the crate (trimmed path)
+            targs = split_top(m.group(2)) if m.group(2) else []
+            return self.crate_call(m.group(1), av(), args, env, targs)
         raise Unsupported('call ' + callee)
 
     def closure_by_type(self, ct):
